@@ -70,6 +70,7 @@ def src(v, top=False):
                 # a one-element unbracketed list without separator is the element itself
                 assert br, v
                 body = src(items[0])
+                assert body != "()", "`[()]` is read as `[]` by rsass; build this value another way"
             else:
                 # one element with the separator space / slash: only through append
                 return f"list.append({'[]' if br else '()'}, {src(items[0])}, $separator: {sep})"
